@@ -400,6 +400,9 @@ def run(chk, P):
     chk.floor('R03.5', 5)
     r03_6(chk, P)
     chk.floor('R03.6', 1)
+    from rules import pagestate
+    pagestate.packet_filled(chk, P, 'R03.8')
+    chk.floor('R03.8', 8)
     r03_3(chk, P)
     chk.floor('R03.3', 10)
     chk.rule('R03.4', 'failed opens store NULL into vf->datasource before ov_clear on every path; the close callback has one '
